@@ -19,6 +19,7 @@ package autodiff
 /* -------------------------------------------------------------------------- */
 
 import "bufio"
+import "fmt"
 import "io"
 import "math"
 import "os"
@@ -207,6 +208,28 @@ func (obj sortIntConstInt) Swap(i, j int) {
 
 func (obj sortIntConstInt) Less(i, j int) bool {
   return obj.a[i] < obj.a[j]
+}
+
+/* -------------------------------------------------------------------------- */
+
+// Check the index list of a serialized sparse vector of length n. Used
+// by the readers (UnmarshalJSON, Import) so that malformed input is answered
+// with an error instead of a panic of the constructor or an invalid vector.
+func checkSparseIndices(indices []int, n int) error {
+  if n < 0 {
+    return fmt.Errorf("invalid sparse vector: negative length `%d'", n)
+  }
+  seen := make(map[int]struct{}, len(indices))
+  for _, k := range indices {
+    if k < 0 || k >= n {
+      return fmt.Errorf("invalid sparse vector: index `%d' out of range for length `%d'", k, n)
+    }
+    if _, ok := seen[k]; ok {
+      return fmt.Errorf("invalid sparse vector: index `%d' appears multiple times", k)
+    }
+    seen[k] = struct{}{}
+  }
+  return nil
 }
 
 /* -------------------------------------------------------------------------- */
